@@ -21,6 +21,7 @@ pub fn spec() -> PropSpec {
         assumptions: &["annotation characters in the separator position after ALT B, ALT S, VRATE, TRK, HDG (source markers) and before W (threat flag) are allowed", "LC may read 0 or 1 for a row injected just before printing"],
         workers: 16,
         also_nochk: false,
+        fuzz_target: None,
         quick_budget_s: 900,
         thorough_budget_s: 3600,
         min_nontrivial_quick: 20_000,
